@@ -11,24 +11,25 @@ Definition uniq_keys (ls : list link) : Prop := NoDup (map lkey ls).
 
 (** ---------- idempotence of CalculateNewFlags ---------- *)
 
-Lemma to_set_app_nodup l : forall m, NoDup (m ++ l) -> fold_left (fun m f => set_add f m) l m = m ++ l.
+Lemma to_set_ci_app_nodup l : forall m, NoDup (keys (m ++ l)) -> fold_left (fun m f => set_add_ci f m) l m = m ++ l.
 Proof.
   induction l as [|f l IH]; intros m H; simpl; [now rewrite app_nil_r|].
-  assert (Hf : mem f m = false).
-  { apply mem_false. intros Hin. apply NoDup_remove_2 in H. apply H. apply in_app_iff. now left. }
-  unfold set_add at 2. rewrite Hf. rewrite IH; rewrite <- app_assoc; simpl; auto.
+  assert (Hf : mem_ci f m = false).
+  { apply mem_ci_false. intros Hin. rewrite keys_app in H. simpl in H. apply NoDup_remove_2 in H. apply H.
+    apply in_app_iff. now left. }
+  unfold set_add_ci at 2. rewrite Hf. rewrite IH; rewrite <- app_assoc; simpl; auto.
 Qed.
 
-Lemma to_set_nodup_id l : NoDup l -> to_set l = l.
-Proof. intros H. unfold to_set. now rewrite to_set_app_nodup. Qed.
+Lemma to_set_ci_nodup_id l : NoDup (keys l) -> to_set_ci l = l.
+Proof. intros H. unfold to_set_ci. now rewrite to_set_ci_app_nodup. Qed.
 
-Lemma add_all_absorb new : forall m, (forall f, In f new -> f <> RECENT -> In f m) -> add_all new m = m.
+Lemma add_all_absorb new : forall m, (forall f, In f new -> eqf f RECENT = false -> In (fkey f) (keys m)) -> add_all new m = m.
 Proof.
   unfold add_all. induction new as [|f new IH]; intros m H; simpl; [reflexivity|].
-  destruct (str_eqb_spec f RECENT) as [->|Hn].
+  destruct (eqf f RECENT) eqn:E.
   - apply IH. intros g Hg. apply H. now right.
-  - assert (Hm : mem f m = true) by (apply mem_In, H; [now left | assumption]).
-    unfold set_add. rewrite Hm. apply IH. intros g Hg. apply H. now right.
+  - assert (Hm : mem_ci f m = true) by (apply mem_ci_In, H; [now left | assumption]).
+    unfold set_add_ci. rewrite Hm. apply IH. intros g Hg. apply H. now right.
 Qed.
 
 Lemma filter_all_true {A} (p : A -> bool) l : (forall x, In x l -> p x = true) -> filter p l = l.
@@ -37,23 +38,23 @@ Proof.
   rewrite (H x (or_introl eq_refl)). f_equal. apply IH. intros y Hy. apply H. now right.
 Qed.
 
-Lemma del_all_absorb new : forall m, (forall f, In f new -> f <> RECENT -> ~ In f m) -> del_all new m = m.
+Lemma del_all_absorb new : forall m, (forall f, In f new -> eqf f RECENT = false -> ~ In (fkey f) (keys m)) -> del_all new m = m.
 Proof.
   unfold del_all. induction new as [|f new IH]; intros m H; simpl; [reflexivity|].
-  destruct (str_eqb_spec f RECENT) as [->|Hn].
+  destruct (eqf f RECENT) eqn:E.
   - apply IH. intros g Hg. apply H. now right.
-  - assert (Hm : set_del f m = m).
-    { unfold set_del. apply filter_all_true. intros x Hx. apply negb_true_iff, str_eqb_neq.
-      intros ->. apply (H x); [now left | assumption | assumption]. }
+  - assert (Hm : set_del_ci f m = m).
+    { unfold set_del_ci. apply filter_all_true. intros x Hx. apply negb_true_iff, eqf_false.
+      intros Hk. apply (H f); [now left | assumption |]. rewrite <- Hk. now apply in_map. }
     rewrite Hm. apply IH. intros g Hg. apply H. now right.
 Qed.
 
-Lemma calc_nodup cur new s : NoDup (calculate_new_flags cur new s).
+Lemma calc_nodup cur new s : NoDup (keys (calculate_new_flags cur new s)).
 Proof.
   unfold calculate_new_flags.
   destruct (str_eqb s IT_FLAGS); [apply add_all_NoDup; constructor|].
-  destruct (str_eqb s IT_ADD); [apply add_all_NoDup, to_set_NoDup|].
-  destruct (str_eqb s IT_DEL); [apply del_all_NoDup, to_set_NoDup | apply to_set_NoDup].
+  destruct (str_eqb s IT_ADD); [apply add_all_NoDup, to_set_ci_NoDup|].
+  destruct (str_eqb s IT_DEL); [apply del_all_NoDup, to_set_ci_NoDup | apply to_set_ci_NoDup].
 Qed.
 
 Lemma calc_idem cur new s :
@@ -63,12 +64,13 @@ Proof.
   unfold calculate_new_flags.
   destruct (str_eqb s IT_FLAGS); [reflexivity|].
   destruct (str_eqb s IT_ADD).
-  - intros Hnd. rewrite (to_set_nodup_id _ Hnd). apply add_all_absorb.
-    intros f Hf Hr. apply add_all_In. right. split; assumption.
+  - intros Hnd. rewrite (to_set_ci_nodup_id _ Hnd). apply add_all_absorb.
+    intros f Hf Hr. apply add_all_keys. right. split; [now apply in_map | now apply eqf_false].
   - destruct (str_eqb s IT_DEL).
-    + intros Hnd. rewrite (to_set_nodup_id _ Hnd). apply del_all_absorb.
-      intros f Hf Hr Hin. apply del_all_In in Hin. destruct Hin as [_ Hx]. apply Hx. split; assumption.
-    + intros Hnd. now rewrite (to_set_nodup_id _ Hnd).
+    + intros Hnd. rewrite (to_set_ci_nodup_id _ Hnd). apply del_all_absorb.
+      intros f Hf Hr Hin. apply del_all_keys in Hin. destruct Hin as [_ Hx]. apply Hx.
+      split; [now apply in_map | now apply eqf_false].
+    + intros Hnd. now rewrite (to_set_ci_nodup_id _ Hnd).
 Qed.
 
 Lemma will_move_after e mb item new l :
